@@ -318,7 +318,7 @@ def _to_int(a):
     return t
 
 
-FLOOR_LEMMAS = True
+FLOOR_LEMMAS = False     # opt-in (C12, C13, C16): pairwise monotonicity lemmas between floor terms
 
 
 def e_floor(a):
